@@ -3374,7 +3374,8 @@ EB_API EbErrorType svt_av1_enc_set_parameter(
     set_param_based_on_input(
         enc_handle->scs_instance_array[instance_index]->scs_ptr);
 
-    // Initialize the Prediction Structure Group
+    // Initialize the Prediction Structure Group (a repeated call replaces the previous one)
+    EB_DELETE(enc_handle->scs_instance_array[instance_index]->encode_context_ptr->prediction_structure_group_ptr);
     EB_NO_THROW_NEW(
         enc_handle->scs_instance_array[instance_index]->encode_context_ptr->prediction_structure_group_ptr,
         prediction_structure_group_ctor,
